@@ -8,7 +8,7 @@ open RbModel RbModel.Lex
 def kindName : Kind → String
   | .eol => "eol" | .ws => "ws" | .digits => "digits" | .ge => "ge" | .gt => "gt" | .le => "le" | .lt => "lt"
   | .eq => "eq" | .ne => "ne" | .keyword => "keyword" | .ident => "ident" | .oct => "oct" | .hex => "hex"
-  | .symbol => "symbol" | .errTooLong => "errTooLong"
+  | .symbol => "symbol"
 
 def ordName : Ordering → String
   | .lt => "lt" | .eq => "eq" | .gt => "gt"
@@ -48,6 +48,10 @@ def handle (cmd : String) (args : List Sexp) : Option String :=
       pure (match commonSeparator (lex (a ++ b)) with
         | some rest => if rest == lex b then "all" else "part"
         | none => "none")
+  | "lex.longnames", [a] => do
+      -- the lengths of the identifier tokens that are too long to be names
+      let a ← a.nats?
+      pure (toString (Sexp.ofNats (((lex a).filter (fun t => t.kind == .ident && nameTooLong t)).map (·.text.length))))
   | "lex.alpha", [c] => do
       let c ← c.nat?
       pure (optNat (charToAlphabetIndex c))
